@@ -7,7 +7,7 @@
 EXTENDS Integers, Sequences, TLC, Json
 CONSTANTS Side, Only     \* Only: "all" | "burst" (just the scripts that have frames queued when the peer's close is read)
 
-Faults == {"eof", "reset", "partial", "close", "closeErr", "end", "endErr", "detachS", "detachSErr", "detachR", "silentEof"}
+Faults == {"eof", "reset", "partial", "close", "closeErr", "end", "endErr", "detachS", "detachSErr", "detachR", "silentEof", "detachSnc", "detachRnc"}   \* ..nc: detach without closing
 \* cut: number of completed steps before the failure; pend: what is pending when it strikes
 Cuts == 0..6
 Pends == {"step", "none", "send", "recv", "close", "end", "detach", "burst1", "burst2", "burst3", "burst5"}   \* close / end / detach: the local teardown call crosses the failure on the wire
@@ -15,9 +15,11 @@ Bursts == {"burst1", "burst2", "burst3", "burst5"}
 VARIABLE z
 Init == z = [k |-> "start"]
 Applicable(c, f, p) ==
-  /\ (f \in {"end", "endErr"} => c >= 2) /\ (f \in {"detachS", "detachSErr"} => c >= 3) /\ (f = "detachR" => c >= 4)
+  /\ (f \in {"end", "endErr"} => c >= 2) /\ (f \in {"detachS", "detachSErr", "detachSnc"} => c >= 3) /\ (f \in {"detachR", "detachRnc"} => c >= 4)
   /\ (p = "send" => c >= 3) /\ (p = "recv" => c >= 4) /\ (p = "step" => c <= 5)
   /\ (p = "close" => c >= 1) /\ (p = "end" => c >= 2) /\ (p = "detach" => c >= 3)
+  \* (answering a closing detach with a non-closing one is itself a violation by the peer: not a failure to propagate)
+  /\ ~(p = "detach" /\ f = "detachSnc")
   \* burstK: a burst of link-level frames handed over in one go, K scheduler turns, then the peer's close: frames are still
   \* queued inside the endpoint when the close is read
   /\ (p \in Bursts => c \in {3, 4} /\ f \in {"close", "closeErr"} /\ Side = "client")
@@ -62,6 +64,8 @@ Fault(f) == CASE f = "eof" -> <<[e |-> "PEof", keep_read |-> TRUE]>>
               [] f = "endErr" -> <<PF("end", 3, [err |-> "x:ended"])>>
               [] f = "detachS" -> <<PF("detach", 3, [h |-> 5, closed |-> TRUE, err |-> ""])>>
               [] f = "detachSErr" -> <<PF("detach", 3, [h |-> 5, closed |-> TRUE, err |-> "x:gone"])>>
+              [] f = "detachSnc" -> <<PF("detach", 3, [h |-> 5, closed |-> FALSE, err |-> "x:gone"])>>
+              [] f = "detachRnc" -> <<PF("detach", 3, [h |-> 6, closed |-> FALSE, err |-> "x:gone"])>>
               [] OTHER -> <<PF("detach", 3, [h |-> 6, closed |-> TRUE, err |-> "x:gone"])>>
 Probe == << [e |-> "Mark", what |-> "fault-done"],
             [e |-> "AAwaitOutcome", nth |-> 0], [e |-> "ASend", l |-> "L1", m |-> 8, len |-> 20], [e |-> "ARecv", l |-> "L2"],
